@@ -17,8 +17,18 @@ import ast
 import os
 
 from .. import translate
+from . import normalize
+from .moments import inline_temps, respell
 
 REL = "fairlearn/reductions/_exponentiated_gradient/exponentiated_gradient.py"
+
+
+# locals of the pinned source in order of first binding; the weights temporary may be inlined by the source
+PREDICT_LOCALS = ["positive_probs", "pred", "randomized_pred", "weights", "i"]
+
+
+def _refuse(msg):
+    raise translate.Untranslatable(f"{REL}: {msg}")
 
 
 def _is_self_weights(n):
@@ -31,7 +41,7 @@ def _is_pred_columns(n):
 
 @translate.lifter
 def lift_egpredict(repo):
-    tree = ast.parse(translate._read(repo, REL))
+    tree = normalize.parse(translate._read(repo, REL))
     predict = None
     for node in ast.walk(tree):
         if isinstance(node, ast.ClassDef) and node.name == "ExponentiatedGradient":
@@ -40,6 +50,37 @@ def lift_egpredict(repo):
                     predict = f
     if predict is None:
         raise translate.Untranslatable(f"{REL}: ExponentiatedGradient.predict not found")
+    # undo renamed locals / introduced temporaries / mirrored or commuted spellings of the classification draw
+    inline_temps(predict, PREDICT_LOCALS)
+    predict = normalize.rename_locals(predict, PREDICT_LOCALS)
+    if "weights" not in normalize.binding_order(predict):       # the source inlined the weights temporary
+        predict = normalize.rename_locals(predict, [n for n in PREDICT_LOCALS if n != "weights"])
+    respell(predict, arith=["(positive_probs >= random_state.rand(len(positive_probs))) * 1"],
+            tests=["positive_probs >= random_state.rand(len(positive_probs))"])
+    # the statements around the two draws (the docstring's shape): which column is the positive probability, one
+    # uniform draw per row, `* 1`; one choice per row of `pred`, stored in that row
+    branch = [n for n in predict.body if isinstance(n, ast.If)
+              and ast.unparse(n.test) == "isinstance(self.constraints, ClassificationMoment)"]
+    if len(branch) != 1 or predict.body[-1] is not branch[0]:
+        _refuse("predict does not end with the classification / regression branch")
+    if [ast.unparse(n) for n in branch[0].body] != ["positive_probs = self._pmf_predict(X)[:, 1]",
+                                                    "return (positive_probs >= random_state.rand(len(positive_probs))) * 1"]:
+        _refuse(f"classification branch changed: {[ast.unparse(n) for n in branch[0].body]}")
+    reg = branch[0].orelse
+    loops = [n for n in reg if isinstance(n, ast.For)]
+    if len(loops) != 1 or ast.unparse(loops[0].target) != "i" or ast.unparse(loops[0].iter) != "range(pred.shape[0])" \
+            or loops[0].orelse or len(loops[0].body) != 1 or not isinstance(loops[0].body[0], ast.Assign) \
+            or ast.unparse(loops[0].body[0].targets[0]) != "randomized_pred[i]" \
+            or not isinstance(loops[0].body[0].value, ast.Call):
+        _refuse("regression branch is not one `randomized_pred[i] = <choice>` per `i in range(pred.shape[0])`")
+    others = [ast.unparse(n) for n in reg if n is not loops[0] and not (
+        isinstance(n, ast.Assign) and ast.unparse(n.targets[0]) == "weights")]
+    if others != ["pred = self._pmf_predict(X)", "randomized_pred = np.zeros(pred.shape[0])", "return randomized_pred"] \
+            or reg[-1] is loops[0] or reg.index(loops[0]) != len(reg) - 2:
+        _refuse(f"regression branch changed: {others}")
+    for n in reg[:-2]:
+        if isinstance(n, ast.Assign) and ast.unparse(n.targets[0]) == "weights" and reg.index(n) < 1:
+            _refuse("weights are computed before pred")
     choices = [n for n in ast.walk(predict) if isinstance(n, ast.Call) and isinstance(n.func, ast.Attribute)
                and n.func.attr == "choice"]
     if len(choices) != 1:
@@ -65,6 +106,10 @@ def lift_egpredict(repo):
         p = defs[0].value
     if _is_self_weights(p):
         by_id = False
+    elif isinstance(p, ast.Subscript) and isinstance(p.value, ast.Attribute) and p.value.attr == "loc" \
+            and _is_self_weights(p.value.value) and _is_pred_columns(p.slice):
+        p = ast.Subscript(value=p.value.value, slice=p.slice, ctx=ast.Load())   # Series.loc[labels] = Series[labels] for a
+        by_id = True                                                            # list-like of labels: the pinned spelling
     elif isinstance(p, ast.Subscript) and _is_pred_columns(p.slice) and (
             _is_self_weights(p.value)
             or (isinstance(p.value, ast.Attribute) and p.value.attr == "loc" and _is_self_weights(p.value.value))):
